@@ -605,20 +605,11 @@ func (p *path) pureChoice(n int) int {
 		return 0
 	}
 	if p.job.Concrete {
-		c := 0
-		if p.choiceIdx < len(p.job.Choices) {
-			c = p.job.Choices[p.choiceIdx]
-		}
-		p.choiceIdx++
-		if c >= n {
-			c = n - 1
-		}
-		p.choices = append(p.choices, c)
-		return c
+		return 0
 	}
-	c := p.decide(make([]*smtTerm, n), nil)
-	p.choices = append(p.choices, c)
-	return c
+	// internal choices (select readiness, map order) are decisions of the path
+	// but not part of the harness's verifChoice sequence
+	return p.decide(make([]*smtTerm, n), nil)
 }
 
 var _ = fmt.Sprint
